@@ -8,7 +8,7 @@
 # wrapped as guards for a cfitsio built without LFS aliases; realloc for the
 # growth of cfitsio memory files; ffrprt (cfitsio's error printer) only to keep
 # millions of injected failures off stderr.
-IO_WRAPS := fopen64 fopen remove unlink rename access fileno ftruncate64 ftruncate realloc ffrprt open open64 creat read write pread pwrite pread64 pwrite64 lseek lseek64 close fsync fdatasync
+IO_WRAPS := fopen64 fopen remove unlink rename access fileno ftruncate64 ftruncate realloc ffrprt open open64 creat read write pread pwrite pread64 pwrite64 lseek lseek64 close fsync fdatasync stat stat64 lstat
 
 IO_OBJS := $(B)/asan/sim/harness.o $(B)/asan/sim/simdisk.o $(B)/asan/sim/fitscodec.o $(B)/asan/sim/tablegen.o \
   $(B)/asan/harness/psv_io.o \
